@@ -19,15 +19,16 @@ import (
 // Options are per-harness engine settings (set by zzverifrt.Option calls at
 // the start of the harness or from the command line).
 type Options struct {
-	ForkShifts   bool
-	IntMode      bool
-	MaxSteps     int
-	MaxPaths     int
-	MaxChoices   int
-	NoMerge      bool
-	StopAtFirst  bool
-	Footprints   bool
-	ReverseTasks bool
+	ForkShifts    bool
+	IntMode       bool
+	MaxSteps      int
+	MaxPaths      int
+	MaxChoices    int
+	NoMerge       bool
+	MinimizeWords bool // counterexamples and witnesses: shrink 64-bit inputs too
+	StopAtFirst   bool
+	Footprints    bool
+	ReverseTasks  bool
 }
 
 type targetPanic struct{ v Value }
